@@ -227,6 +227,18 @@ func C16(run *core.Run) {
 				sub := fmt.Sprintf("sub%d", r.Intn(3))
 				msgs = append(msgs, &mocrelay.ClientReqMsg{SubscriptionID: sub, ReqFilters: conc.Filters(fs)})
 				lines = append(lines, map[string]any{"op": "REQ", "sub": sub, "fs": abs.NormFilters(fs), "shape": "REQ " + describeFilters(fs)})
+			case k == 8 && r.Intn(3) == 0:
+				// a REQ that the store cannot turn into a query (an id / author condition that is not hex; the typed API accepts it):
+				// it matches nothing, and it is still a REQ -- exactly one EOSE, and the session goes on
+				sub := fmt.Sprintf("sub%d", r.Intn(3))
+				af := abs.Filter{IDs: abs.StrSet{P: true, S: []string{"nohex"}}}
+				cf := &mocrelay.ReqFilter{IDs: []string{"zz"}}
+				if r.Intn(2) == 0 {
+					af = abs.Filter{Authors: abs.StrSet{P: true, S: []string{"nohex"}}}
+					cf = &mocrelay.ReqFilter{Authors: []string{"not hex at all"}}
+				}
+				msgs = append(msgs, &mocrelay.ClientReqMsg{SubscriptionID: sub, ReqFilters: []*mocrelay.ReqFilter{cf}})
+				lines = append(lines, map[string]any{"op": "REQ", "sub": sub, "fs": abs.NormFilters([]abs.Filter{af}), "shape": "REQ with a condition that is not hex"})
 			case k == 8:
 				sub := fmt.Sprintf("cnt%d", r.Intn(2))
 				msgs = append(msgs, &mocrelay.ClientCountMsg{SubscriptionID: sub, ReqFilters: conc.Filters([]abs.Filter{{}})})
@@ -338,7 +350,7 @@ func C16(run *core.Run) {
 		}
 	}
 	c16DumpRestore(run, distinct)
-	run.Set("rule", "seeded random client sessions over all five message types (EVENT of every class incl. duplicates, REQ with random and match-all filter lists, COUNT, CLOSE, AUTH) are pipelined into NewCacheHandler(cap) and NewSQLiteHandler(EventBulkInsertNum=1); the complete output sequence is validated by TLC against HandlerTrace (replies in request order, one OK / EVENT* EOSE / one COUNT / nothing; cache verdicts from Store!AddRel, SQLite background insertion as silent Flush steps). Dump/Restore: every cache state reached by the histories is dumped, restored into a fresh handler of the same capacity, and probe queries of the restored handler are judged against the original listing (FindTrace); TLC also checks DumpRestoreOK on every state of StoreMC (C04 run). distinct_nontrivial = distinct sessions + distinct dumped states")
+	run.Set("rule", "seeded random client sessions over all five message types (EVENT of every class incl. duplicates, REQ with random and match-all filter lists and, now and then, with an id / author condition that is not hex - it matches nothing, the SQLite store cannot build the query, the reply is still one EOSE -, COUNT, CLOSE, AUTH) are pipelined into NewCacheHandler(cap) and NewSQLiteHandler(EventBulkInsertNum=1); the complete output sequence is validated by TLC against HandlerTrace (replies in request order, one OK / EVENT* EOSE / one COUNT / nothing; cache verdicts from Store!AddRel, SQLite background insertion as silent Flush steps). Dump/Restore: every cache state reached by the histories is dumped, restored into a fresh handler of the same capacity, and probe queries of the restored handler are judged against the original listing (FindTrace); TLC also checks DumpRestoreOK on every state of StoreMC (C04 run). distinct_nontrivial = distinct sessions + distinct dumped states")
 	run.Set("evaluations", run.Get("messages_sent")+run.Get("restore_probes"))
 	run.Set("distinct_nontrivial", distinct.Len())
 	run.Assume = append(run.Assume, "the count value of COUNT replies is not constrained by the property", "SQLite REQ answers may or may not include events still in the insertion queue")
